@@ -429,15 +429,35 @@ func (fr *frame) frameObligations(con *Contract, penv *SpecEnv, gRet string, mem
 	oenv := penv.withMem(fr.entry)
 	regs := oenv.regions(con)
 	byComp := map[string][]region{}
+	var freshComps map[string]bool
 	for _, r := range regs {
 		if r.kind == "all" {
 			return
+		}
+		if r.kind == "fresh" {
+			if len(r.comps) > 0 {
+				if freshComps == nil {
+					freshComps = map[string]bool{}
+				}
+				for _, c := range r.comps {
+					freshComps[c] = true
+				}
+			}
+			continue
 		}
 		for _, c := range r.comps {
 			byComp[c] = append(byComp[c], r)
 		}
 	}
 	brk0 := vc.get(fr.entry, "brk")
+	// with a typed fresh(...) clause, a component that is not listed must be unchanged at every
+	// reference, also at those allocated by the function
+	newObjects := func(c, r string) string {
+		if freshComps != nil && !freshComps[c] {
+			return "false"
+		}
+		return app(">=", r, brk0)
+	}
 	for _, c := range sortedKeys(vc.compSort) {
 		if immutableComp(c) || strings.HasPrefix(c, "G:iter:") || strings.HasPrefix(c, "L:") {
 			continue
@@ -471,7 +491,7 @@ func (fr *frame) frameObligations(con *Contract, penv *SpecEnv, gRet string, mem
 			for _, rg := range rs {
 				in = append(in, and(eq(r, rg.ref), app("bvule", rg.lo, j), app("bvult", j, rg.hi)))
 			}
-			goal = or(append(in, app(">=", r, brk0), app("<=", r, "0"), eq(app("select", app("select", n, r), j), app("select", app("select", o, r), j)))...)
+			goal = or(append(in, newObjects(c, r), app("<=", r, "0"), eq(app("select", app("select", n, r), j), app("select", app("select", o, r), j)))...)
 		} else if strings.HasPrefix(srt, "(Array Int ") {
 			r := sym("frame!r")
 			extra = []string{fmt.Sprintf("(declare-const %s Int)", r)}
@@ -479,7 +499,7 @@ func (fr *frame) frameObligations(con *Contract, penv *SpecEnv, gRet string, mem
 			for _, rg := range rs {
 				in = append(in, eq(r, rg.ref))
 			}
-			goal = or(append(in, app(">=", r, brk0), app("<=", r, "0"), eq(app("select", n, r), app("select", o, r)))...)
+			goal = or(append(in, newObjects(c, r), app("<=", r, "0"), eq(app("select", n, r), app("select", o, r)))...)
 		} else {
 			goal = eq(n, o)
 		}
